@@ -12,11 +12,12 @@ import LinVerif.Generated.C13
 import LinVerif.Lemmas.C13Interval
 import LinVerif.Lemmas.C13Lookup
 import LinVerif.Lemmas.C13Zone
+import LinVerif.Lemmas.C13ZoneContract
 import LinVerif.Lemmas.C13Planner
 
 namespace LinVerif.Props.C13
 open LinVerif.Calendar LinVerif.Interval
-open LinVerif.Lemmas.C13 (monthStartDay nextMonthStartDay)
+open LinVerif.Lemmas.C13 (monthStartDay nextMonthStartDay ZoneOK HourAligned localDay midnightOf)
 
 /-! ## calendar -/
 
@@ -577,6 +578,81 @@ theorem zone_slot_bound (off : Int) (c : Calc) (t i : Int) (h0 : 0 ≤ t) (h1 : 
   obtain ⟨s, es, s0, l, u⟩ := Lemmas.C13.slot_bound c (t := t + 1000 * off) (i := i) h1 hi
   exact ⟨s, by rw [e4 i]; exact es, s0, by rw [e2]; omega, by rw [e2]; omega⟩
 
+/-! ## any `time.Local` satisfying the local-midnight contract (daylight-saving zones included)
+
+`ZoneOK z` (`Lemmas/C13ZoneContract.lean`): with `localDay z t` the wall-clock day number of an
+instant and `midnightOf z n` the instant of the local midnight starting day `n` (the two things
+`time.Unix(..).Date()` and `time.Date(.., time.Local)` compute), local midnights strictly increase,
+`midnightOf (localDay t) ≤ t < midnightOf (localDay t + 1)` for `t ≥ 0`, and
+`localDay (midnightOf n) = n`. `HourAligned z`: every local day is a whole number of hours long.
+Nothing else about the zone is used: offsets may change (23-, 25-, 23.5-, 24.5-hour days). -/
+
+/-- month-type (families = local days) and year-type (families = local calendar months) calculators:
+containment, idempotence and tiling hold over every zone satisfying the contract -/
+theorem zone_contract_month_year (z : Zone) (hz : ZoneOK z) (c : Calc) (hc : c = .month ∨ c = .year)
+    (t : Int) (h0 : 0 ≤ t) :
+    (calcFamilyTimeZ z c t ≤ t ∧ t ≤ calcFamilyEndTimeZ z c (calcFamilyTimeZ z c t)) ∧
+    (∀ t', 0 ≤ t' → calcFamilyTimeZ z c t ≤ t' → t' ≤ calcFamilyEndTimeZ z c (calcFamilyTimeZ z c t) →
+      calcFamilyTimeZ z c t' = calcFamilyTimeZ z c t) ∧
+    calcFamilyTimeZ z c (calcFamilyEndTimeZ z c (calcFamilyTimeZ z c t) + 1)
+      = calcFamilyEndTimeZ z c (calcFamilyTimeZ z c t) + 1 := by
+  rcases hc with rfl | rfl
+  · exact ⟨Lemmas.C13.zc_month_contains hz h0,
+      fun t' h0' a b => Lemmas.C13.zc_month_idempotent hz h0' a b, Lemmas.C13.zc_month_tile hz t⟩
+  · exact ⟨Lemmas.C13.zc_year_contains hz h0,
+      fun t' h0' a b => Lemmas.C13.zc_year_idempotent hz h0' a b, Lemmas.C13.zc_year_tile hz t⟩
+
+/-- day-type calculator (families = hours counted from local midnight): containment over every
+zone satisfying the contract; idempotence and tiling when in addition every local day is a whole
+number of hours long (whole-hour daylight saving). `Neg.dst_half_hour_day_family_overlaps` shows the
+extra hypothesis is needed. -/
+theorem zone_contract_day (z : Zone) (hz : ZoneOK z) (t : Int) (h0 : 0 ≤ t) :
+    (calcFamilyTimeZ z .day t ≤ t ∧ t ≤ calcFamilyEndTimeZ z .day (calcFamilyTimeZ z .day t)) ∧
+    (HourAligned z →
+      (∀ t', 0 ≤ t' → calcFamilyTimeZ z .day t ≤ t' →
+        t' ≤ calcFamilyEndTimeZ z .day (calcFamilyTimeZ z .day t) →
+        calcFamilyTimeZ z .day t' = calcFamilyTimeZ z .day t) ∧
+      calcFamilyTimeZ z .day (calcFamilyEndTimeZ z .day (calcFamilyTimeZ z .day t) + 1)
+        = calcFamilyEndTimeZ z .day (calcFamilyTimeZ z .day t) + 1) :=
+  ⟨Lemmas.C13.zc_day_contains hz h0, fun ha =>
+    ⟨fun t' h0' a b => Lemmas.C13.zc_day_idempotent hz ha h0 h0' a b, Lemmas.C13.zc_day_tile hz ha h0⟩⟩
+
+/-- slots over such a zone, in the slot-rule variant the current source selects (month: plain
+quotient since fix 46bbfe1): `slot·interval` is within one interval below the timestamp -/
+theorem zone_contract_slot (z : Zone) (hz : ZoneOK z) (c : Calc) (t i : Int) (h0 : 0 ≤ t) (hi : 0 < i) :
+    ∃ s, calcSlotV .quotient c t (calcFamilyTimeZ z c t) i = some s ∧ 0 ≤ s ∧
+      calcFamilyTimeZ z c t + s * i ≤ t ∧ t < calcFamilyTimeZ z c t + (s + 1) * i := by
+  have hne : i ≠ 0 := by omega
+  cases c
+  · -- day: offset below one hour, so `% OneHour` is the identity
+    have hc := Lemmas.C13.zc_day_contains hz h0
+    simp only [calcFamilyEndTimeZ, Lemmas.C13.oneHour_val] at hc
+    have hr : 0 ≤ t - calcFamilyTimeZ z .day t := by omega
+    have q := Lemmas.C13.quotient_slot_bound t (calcFamilyTimeZ z .day t) i (by omega) hi
+    refine ⟨(t - calcFamilyTimeZ z .day t) / i, ?_, q.1, q.2.1, q.2.2⟩
+    simp only [calcSlotV, calcSlot, hne, if_false, Lemmas.C13.oneHour_val]
+    rw [Int.tmod_eq_emod_of_nonneg hr]
+    have e : (t - calcFamilyTimeZ z .day t) % 3600000 = t - calcFamilyTimeZ z .day t := by omega
+    rw [e, Int.tdiv_eq_ediv_of_nonneg hr]
+  · have hc := Lemmas.C13.zc_month_contains hz h0
+    have hr : 0 ≤ t - calcFamilyTimeZ z .month t := by omega
+    have q := Lemmas.C13.quotient_slot_bound t (calcFamilyTimeZ z .month t) i (by omega) hi
+    refine ⟨(t - calcFamilyTimeZ z .month t) / i, ?_, q.1, q.2.1, q.2.2⟩
+    simp only [calcSlotV, hne, if_false]
+    rw [Int.tdiv_eq_ediv_of_nonneg hr]
+  · have hc := Lemmas.C13.zc_year_contains hz h0
+    have hr : 0 ≤ t - calcFamilyTimeZ z .year t := by omega
+    have q := Lemmas.C13.quotient_slot_bound t (calcFamilyTimeZ z .year t) i (by omega) hi
+    refine ⟨(t - calcFamilyTimeZ z .year t) / i, ?_, q.1, q.2.1, q.2.2⟩
+    simp only [calcSlotV, calcSlot, hne, if_false]
+    rw [Int.tdiv_eq_ediv_of_nonneg hr]
+
+/-- the contract is satisfiable: every fixed-offset zone (UTC included) satisfies it and is
+hour-aligned -/
+theorem fixed_zone_satisfies_contract (off : Int) :
+    ZoneOK (Zone.fixed off) ∧ HourAligned (Zone.fixed off) :=
+  Lemmas.C13.fixed_zone_ok off
+
 /-! ## non-vacuity -/
 
 -- 2024-02-29T12:34:56.789Z (leap day): the three calculators
@@ -643,6 +719,9 @@ theorem calc_slot_month (v : SlotVariant) (hv : slotVariantOf C13.monthCalcSlotE
     first
     | (exfalso; revert hv; decide)
     | simp [calcSlotV, calcSlot, hi, C13.monthCalcSlot, Lemmas.C13.oneDay_val]
+
+/-- the current source uses the plain quotient (fix 46bbfe1); `zone_contract_slot` is stated for it -/
+theorem month_slot_variant_current : slotVariantOf C13.monthCalcSlotExpr = some .quotient := rfl
 
 /-- the source text selects a known variant -/
 theorem month_slot_variant_known : (slotVariantOf C13.monthCalcSlotExpr).isSome = true := by decide
@@ -798,6 +877,18 @@ theorem dst_25h_day_slot_quotient_ok :
     calcSlotV .quotient .month 1730694600000 1730606400000 300000 = some 294 ∧
     1730606400000 + 294 * 300000 ≤ (1730694600000 : Int) ∧
     (1730694600000 : Int) < 1730606400000 + (294 + 1) * 300000 := by decide
+
+/-- Half-hour daylight saving (Australia/Lord_Howe, 2024-04-07, a 24.5-hour day): the day-type
+calculator counts hour families from local midnight, so family 24 `[mid+24h, mid+25h−1]` of
+`t` = 00:10 LHST (second pass) runs 30 minutes into the next local day, whose family 0 starts at
+`mid+24.5h`: the family of the family's end is another family (overlap), and the family spans two
+segments. `HourAligned` in `zone_contract_day` is necessary. -/
+theorem dst_half_hour_day_family_overlaps :
+    calcFamilyTimeZ Zone.lordHoweApr2024 .day 1712495400000 = 1712494800000 ∧
+    calcFamilyEndTimeZ Zone.lordHoweApr2024 .day 1712494800000 = 1712498399999 ∧
+    calcFamilyTimeZ Zone.lordHoweApr2024 .day 1712498399999 = 1712496600000 ∧
+    calcSegmentTimeZ Zone.lordHoweApr2024 .day 1712495400000 = 1712408400000 ∧
+    calcSegmentTimeZ Zone.lordHoweApr2024 .day 1712498399999 = 1712496600000 := by decide
 
 end Neg
 
